@@ -531,7 +531,9 @@ def lsq_cases(draw):
     r = draw(gm.recipes2d(types=["TRI3", "QUAD4", "TRI6"], affine_ok=False, perm_ok=False, hmin=5, hmax=8, nmax=4))
     return dict(recipe=r, regu=draw(st.sampled_from(["AT1", "AT2"])), split=draw(st.sampled_from(["Bourdin", "Amor", "Miehe"])),
                 useed=draw(st.integers(0, 999)), dseed=draw(st.integers(0, 999)), amp=draw(st.integers(1, 8)) / 20.0,
-                dmax=draw(st.sampled_from([0.0, 0.3, 0.9, 1.0])), Gc=draw(st.integers(1, 10)) / 100.0)
+                dmax=draw(st.sampled_from([0.0, 0.3, 0.9, 1.0])), Gc=draw(st.integers(1, 10)) / 100.0,
+                # damage prescribed on some nodes (a pre-crack, the usual way a crack is entered): number of nodes and value
+                crack=draw(st.sampled_from([0, 0, 1, 3, 6])), dcrack=draw(st.sampled_from([1.0, 1.0, 0.5])))
 
 
 def check_lsq(case, rec):
@@ -551,8 +553,15 @@ def check_lsq(case, rec):
     d_prev = np.clip(np.random.default_rng(case["dseed"]).uniform(-0.5, 1.0, mesh.Nn), 0.0, 1.0) * case["dmax"]
     PT = simu.ProblemTypes
     simu._Set_solutions(PT.elastic, u)
+    ncrack = min(int(case.get("crack", 0)), mesh.Nn - 3)
+    known = np.sort(np.random.default_rng(case["dseed"] + 1).choice(mesh.Nn, size=ncrack, replace=False)) if ncrack > 0 else np.zeros(0, int)
+    dcrack = float(case.get("dcrack", 1.0))
+    d_prev[known] = np.minimum(d_prev[known], dcrack)
     simu._Set_solutions(PT.damage, d_prev.copy())
     simu.Need_Update()
+    if ncrack > 0:
+        simu.add_dirichlet(known, [dcrack], ["d"], problemType=PT.damage)
+        rec.label("lsq:prescribed_damage")
     A, _, _, b = simu.Get_K_C_M_F(PT.damage)
     A = orc.dense(A)
     b = orc.dense(b).ravel()
@@ -561,6 +570,15 @@ def check_lsq(case, rec):
     lb = np.minimum(d_prev, 1 - np.finfo(float).eps)
     ub = np.ones_like(lb)
     scale_d = 1.0
+    if ncrack > 0:
+        # the prescribed values hold exactly; the other nodes solve the bounded problem of the reduced system
+        # A_ii d_i = b_i - A_ic d_c (the elimination the solver documents), with their own bounds
+        rec.require(np.all(np.isfinite(d)), "lsq_finite", "non-finite damage", **sig)
+        rec.close(d[known] - dcrack, 1.0, 1e-14, "lsq_prescribed", f"{types}: prescribed damage {dcrack} not held: {d[known]}", **sig)
+        free = np.setdiff1d(np.arange(mesh.Nn), known)
+        b = b[free] - A[np.ix_(free, known)] @ np.full(known.size, dcrack)
+        A = A[np.ix_(free, free)]
+        d, lb, ub = d[free], lb[free], ub[free]
     rec.require(np.all(np.isfinite(d)), "lsq_finite", "non-finite damage", **sig)
     rec.require(np.all(d >= lb - 1e-9) and np.all(d <= ub + 1e-9), "lsq_bounds",
                 f"damage outside [previous damage, 1]: min(d-lb)={np.min(d - lb):.3e}, max(d-ub)={np.max(d - ub):.3e}", **sig)
@@ -799,3 +817,80 @@ def check_dirichlet_arrays(case, rec):
 
 SUBS.append(Sub("dirichlet_arrays", check_dirichlet_arrays, enum=enum_dirichlet_arrays,
                 doc="element type x node list (boundary / every node / all but one; sorted, shuffled, interior first) with one prescribed value per listed node"))
+
+
+# ------------------------------------------------------------------------------------------
+# (added by the lead, round 8) damage prescribed on nodes of a phase-field simulation (the usual way a pre-crack is entered), with and
+# without a driving force, for every damage solver: the prescribed values hold after the damage solve and after a full staggered
+# Solve(), and the other nodes satisfy their rows of the assembled damage system (History solvers: a plain linear solve)
+
+
+def enum_prescribed_damage(tier):
+    sq = [[0.0, 0.0], [1.2, 0.0], [1.0, 0.9], [0.1, 1.0]]
+    for et in ("TRI3", "QUAD4"):
+        r = dict(verts=sq, h=0.35, elemType=et, organised=(et == "QUAD4"), extrude=None, layers=0, A=None, b=None, perm=None, orphans=0)
+        for regu in ("AT1", "AT2"):
+            for solver in ("History", "HistoryDamage", "BoundConstrain"):
+                for amp in (0.0, 0.02):
+                    for dval, nodes in ((1.0, "line"), (0.5, "scattered")):
+                        yield dict(recipe=r, regu=regu, solver=solver, amp=amp, dval=dval, nodes=nodes)
+
+
+def check_prescribed_damage(case, rec):
+    mesh = gm.build(case["recipe"])
+    X = np.asarray(mesh.coord, float)
+    Nn = mesh.Nn
+    sig = dict(regu=case["regu"], solver=case["solver"], loaded=case["amp"] > 0, nodes=case["nodes"])
+    rec.label("solver:" + case["solver"], "regu:" + case["regu"], "loaded" if case["amp"] > 0 else "no_driving_force")
+    if case["nodes"] == "line":
+        known = np.argsort(np.abs(X[:, 1] - 0.45) + 0.2 * np.abs(X[:, 0] - 0.3), kind="stable")[:3]
+    else:
+        known = np.arange(Nn)[:: max(Nn // 4, 1)][:4]
+    known = np.sort(np.unique(known))
+    free = np.setdiff1d(np.arange(Nn), known)
+    dval = float(case["dval"])
+    mat = Models.Elastic.Isotropic(2, E=10.0, v=0.3, planeStress=False)
+
+    def new_simu():
+        pfm = Models.PhaseField(mat, "Bourdin", case["regu"], 0.05, 0.4, solver=case["solver"])
+        simu = Simulations.PhaseField(mesh.copy(), pfm)
+        simu.add_dirichlet(known.copy(), [dval], ["d"], problemType=simu.ProblemTypes.damage)
+        return simu
+
+    # (1) one damage solve at a given displacement (zero, or a smooth field)
+    simu = new_simu()
+    PT = simu.ProblemTypes
+    u = case["amp"] * (X[:, :2] @ np.array([[1.0, 0.3], [-0.2, 0.6]]).T + 0.1 * np.sin(3 * X[:, :2]))
+    simu._Set_solutions(PT.elastic, u.ravel())
+    simu.Need_Update()
+    d = np.asarray(simu._PhaseField__Solve_damage(), float)
+    rec.require(bool(np.all(np.isfinite(d))), "finite_solution", "non-finite damage", **sig)
+    rec.close(d[known] - dval, 1.0, 1e-14, "prescribed_damage_held",
+              f"damage solve ({case['solver']}, {case['regu']}, {'with' if case['amp'] else 'without'} driving force): the damage prescribed on "
+              f"nodes {known.tolist()} is {d[known]} instead of {dval}", stage="damage_solve", **sig)
+    if case["solver"] != "BoundConstrain":
+        A, _, _, b = simu.Get_K_C_M_F(PT.damage)
+        A = orc.dense(A)
+        b = orc.dense(b).ravel()
+        res = (A @ d - b)[free]
+        rscale = float((np.abs(A) @ np.abs(d) + np.abs(b)).max()) + 1e-300
+        rec.close(res, rscale, 1e-10, "free_rows_residual", "the nodes without a prescribed damage do not satisfy their rows of Kd d = Fd",
+                  stage="damage_solve", **sig)
+    # (2) the full staggered step, with supports and a prescribed displacement of the same amplitude
+    simu = new_simu()
+    bottom = np.where(X[:, 1] <= X[:, 1].min() + 0.15)[0]
+    top = np.where(X[:, 1] >= X[:, 1].max() - 0.15)[0]
+    simu.add_dirichlet(bottom, [0.0, 0.0], ["x", "y"])
+    simu.add_dirichlet(top, [case["amp"]], ["y"])
+    out = simu.Solve()
+    d2 = np.asarray(out[1], float)
+    rec.require(bool(np.all(np.isfinite(d2))), "finite_solution", "non-finite damage after Solve()", **sig)
+    rec.close(d2[known] - dval, 1.0, 1e-14, "prescribed_damage_held",
+              f"Solve() ({case['solver']}, {case['regu']}, top displacement {case['amp']}): the damage prescribed on nodes {known.tolist()} is "
+              f"{d2[known]} instead of {dval}", stage="solve", **sig)
+    rec.close(np.asarray(simu.damage, float) - d2, 1.0, 1e-15, "returned_is_current", "Solve() returns another damage than simu.damage", **sig)
+    rec.nontrivial(True)
+
+
+SUBS.append(Sub("prescribed_damage", check_prescribed_damage, enum=enum_prescribed_damage,
+                doc="element type x AT1 / AT2 x damage solver x with / without driving force x prescribed value and node set"))
